@@ -289,6 +289,25 @@ def sc(a, s):
     return np.rint(np.clip(a, -INF + 1, INF)).astype(np.int64).tolist()
 
 
+def as_container(seq, form):
+    """the trajectories of one side in the forms mi_matrix's single zip() pass accepts"""
+    seq = list(seq)
+    if form == 1:
+        return tuple(seq)
+    if form == 2:
+        return (x for x in seq)
+    if form == 3:
+        return iter(seq)
+    if form == 4:
+        return map(lambda x: x, seq)
+    return seq
+
+
+def as_counts(n, form):
+    import numpy as np
+    return np.array(n) if form == 1 else tuple(n) if form == 2 else list(n)
+
+
 def run_session(spec, mods):
     import numpy as np
     libinfo, M = mods
@@ -355,7 +374,15 @@ def run_session(spec, mods):
                     cur["weighted"] = None
                 elif name == "split":
                     Xs, Ys = np.split(X, op["cuts"]), np.split(Y, op["cuts"])
-                    e.update(mi6=sc(M.mi_matrix(Xs, Ys, nx, ny, normalize=False), 1e6))
+                    fx, fy = op.get("form", 0) % 5, op.get("form", 0) // 5 % 5
+                    e.update(mi6=sc(M.mi_matrix(as_container(Xs, fx), as_container(Ys, fy), as_counts(nx, op.get("nform", 0)),
+                                                as_counts(ny, op.get("nform", 0)), normalize=False), 1e6))
+                elif name == "pooled":
+                    Xs = [np.tile(X, (op["k"], 1)) for _ in range(op["parts"])]
+                    Ys = [np.tile(Y, (op["k"], 1)) for _ in range(op["parts"])]
+                    fx, fy = op.get("form", 0) % 5, op.get("form", 0) // 5 % 5
+                    e.update(mi6=sc(M.mi_matrix(as_container(Xs, fx), as_container(Ys, fy), as_counts(nx, op.get("nform", 0)),
+                                                as_counts(ny, op.get("nform", 0)), normalize=False), 1e6))
                 elif name == "swap":
                     X, Y, nx, ny = Y, X, ny, nx
                     mi = mi_now()
